@@ -809,3 +809,7 @@ func ThroughReturns(v ssa.Value) []ssa.Value {
 	walk(v, 0)
 	return out
 }
+
+
+// PkgCallers: see pkgCallers.
+func PkgCallers(fn *ssa.Function) []ssa.Instruction { return pkgCallers(fn) }
